@@ -47,6 +47,14 @@ func Mutate(r *rng.R, rec reflect.Value, ty *Type, st *State) {
 	if g.budget == 0 {
 		g.budget = 40
 	}
+	// a quiet period: one primitive value deep inside nested containers changes, nothing else
+	if st.quiet {
+		return
+	}
+	if len(st.touched) == 0 && r.Chance(1, 8) && g.quietDeepTouch(rec, ty) {
+		st.quiet = true
+		return
+	}
 	// Occasionally let the independent shadow record ("alt") evolve.
 	if r.Chance(1, 3) {
 		g.mutateAlt(ty)
@@ -664,6 +672,13 @@ func (g *gen) mutArray(v reflect.Value, t *Type, nav []NavStep, depth int, stack
 			nl = n + g.r.Intn(2)
 			g.stat("array-shrink-then-grow")
 		}
+		if s, gr, ok := g.regrowPastCapacity(v, n, depth); ok && !deep {
+			if g.do(nav, &Call{M: "EnsureLen", Args: []any{s}, Tag: 'L', Ty: t}) {
+				g.stat("array-regrow-past-capacity")
+				g.noteRegrown(nav, s, n)
+				n, nl = s, gr
+			}
+		}
 		if g.do(nav, &Call{M: "EnsureLen", Args: []any{nl}, Tag: 'L', Ty: t}) {
 			g.lenStat(n, nl)
 		}
@@ -719,6 +734,7 @@ func (g *gen) mutMultimap(v reflect.Value, t *Type, nav []NavStep, depth int, st
 		}
 		return
 	}
+	regrownLo, regrownHi := 0, 0
 	if g.r.Chance(1, 2) {
 		if vt.Kind.Primitive() && kt.Kind.Primitive() && has(v, "Append") && g.r.Chance(1, 3) {
 			if g.do(nav, &Call{M: "Append", Args: []any{g.genPrim(kt, reflect.Value{}), g.genPrim(vt, reflect.Value{})}, Tag: 'L', Ty: t}) {
@@ -728,6 +744,15 @@ func (g *gen) mutMultimap(v reflect.Value, t *Type, nav []NavStep, depth int, st
 			nl := g.walkLen(n, depth)
 			if deep && nl > 2 {
 				nl = g.r.Intn(2)
+			}
+			if s, gr, ok := g.regrowPastCapacity(v, n, depth); ok && !deep {
+				// shrink, then grow beyond the capacity of the backing array in one step
+				if g.do(nav, &Call{M: "EnsureLen", Args: []any{s}, Tag: 'L', Ty: t}) {
+					g.stat("mm-regrow-past-capacity")
+					g.noteRegrown(nav, s, n)
+					regrownLo, regrownHi = s, n
+					n, nl = s, gr
+				}
 			}
 			if g.do(nav, &Call{M: "EnsureLen", Args: []any{nl}, Tag: 'L', Ty: t}) {
 				g.lenStat(n, nl)
@@ -749,6 +774,9 @@ func (g *gen) mutMultimap(v reflect.Value, t *Type, nav []NavStep, depth int, st
 		i := g.r.Intn(n)
 		if g.r.Chance(1, 3) {
 			i = n - 1
+		}
+		if regrownHi > regrownLo && regrownHi <= n && g.r.Chance(2, 3) {
+			i = regrownLo + g.r.Intn(regrownHi-regrownLo) // an element that was hidden and is exposed again
 		}
 		if g.r.Chance(1, 4) {
 			if kt.Kind.Primitive() {
